@@ -63,6 +63,8 @@ func main() {
 		os.Exit(runCheck(&o))
 	case "list":
 		os.Exit(runList(&o))
+	case "baseline":
+		os.Exit(runBaseline(&o))
 	case "effects":
 		w, err := loadAll(&o)
 		if err != nil {
@@ -159,6 +161,7 @@ type group struct {
 
 func runCheck(o *Options) int {
 	t0 := time.Now()
+	loadBaseline(o)
 	w, err := loadAll(o)
 	if err != nil {
 		fmt.Println("ERROR loading:", err)
